@@ -289,8 +289,13 @@ class World:
         if last is not None:
             order.sort(key=lambda v: (v is not last, v.index))
         blocked = []
+        sleepers = []
         for v in order:
             op = v.pending
+            if op.kind == "sleep" and v is last:
+                # a process that just went to sleep runs again only after somebody else moved
+                sleepers.append(v)
+                continue
             if op.guard is not None and not op.guard(self):
                 if op.kind == "acquire":
                     blocked.append(v)
@@ -305,6 +310,9 @@ class World:
             if self.fault_plan is not None:
                 for a in self.fault_plan(self, v, op):
                     opts.append((v, a, 1))
+        if not opts and sleepers:
+            for v in sleepers:
+                opts.append((v, "", 0))
         if not opts and blocked:
             # global quiescence with lock waiters: the 300 s timeout elapses in one of them
             for v in blocked:
@@ -459,7 +467,8 @@ class Explorer:
     """DFS by prefix replay over worlds created by `make_world()`."""
 
     def __init__(self, make_world, budget=(0, 0), cache=True, max_exec=None, deadline=None,
-                 keep_trace=False, on_execution=None):
+                 keep_trace=False, on_execution=None, shard=None):
+        self.shard = shard  # (k, n): explore only every n-th first-level alternative (own cache)
         self.make_world = make_world
         self.budget = budget
         self.use_cache = cache
@@ -582,15 +591,20 @@ class Explorer:
                     self.violations.append(v)
                 # do not branch below a violating execution's violating step; siblings still run
             npts = len(x.points)
+            new = []
             for i in range(npts - 1, len(prefix) - 1, -1):
                 pre, ocs, labels = x.points[i]
                 for alt in range(len(ocs) - 1, 0, -1):
                     c = (pre[0] + ocs[alt][0], pre[1] + ocs[alt][1])
                     if c[0] > P or c[1] > F:
                         continue
-                    stack.append(
+                    new.append(
                         (tuple(x.choices[:i]) + (alt,), tuple(x.labels[:i]) + (labels[alt],))
                     )
+            if self.shard is not None and not prefix:
+                k, n = self.shard
+                new = [e for j, e in enumerate(new) if j % n == k]
+            stack.extend(new)
         return self
 
     def stats(self):
